@@ -184,3 +184,16 @@ Proof.
   split; [apply distinct_ranksb_inj; vm_compute; reflexivity|].
   repeat split; vm_compute; reflexivity.
 Qed.
+
+(* the judge is not vacuous either: it accepts the answer of the model and rejects
+   a lower version, a wrong yanked flag, a missed tier and a wrong error flag *)
+Example C06_judge_discriminates :
+  spec_okb ex_rank caret1 ex_info None [] [] (ROk 2 false) = true /\
+  spec_okb ex_rank caret1 ex_info None [] [] (ROk 1 false) = false /\
+  spec_okb ex_rank caret1 ex_info None [] [] (ROk 2 true) = false /\
+  spec_okb ex_rank caret1 ex_info None [1] [] (ROk 2 false) = false /\
+  spec_okb ex_rank any ex_info None [] [] (ROk 3 true) = false /\
+  spec_okb ex_rank eq110 ex_info (Some 10) [] [] (RErr (Some 10)) = true /\
+  spec_okb ex_rank eq110 ex_info (Some 10) [] [] (RErr None) = false /\
+  spec_okb ex_rank eq110 ex_info (Some 10) [] [] (ROk 2 false) = false.
+Proof. repeat split; vm_compute; reflexivity. Qed.
